@@ -2,7 +2,9 @@ package goja
 
 import (
 	"fmt"
+	"math"
 	"reflect"
+	"strconv"
 
 	"github.com/dop251/goja/unistring"
 )
@@ -19,21 +21,75 @@ func (o *objectGoMapReflect) init() {
 	o.valueType = o.fieldsValue.Type().Elem()
 }
 
-func (o *objectGoMapReflect) toKey(n Value, throw bool) reflect.Value {
+// toKey converts an integer property index into a map key. Only a key whose property name
+// (see keyToString) is that very integer is valid, so indices outside the key type's range
+// do not wrap around to some other entry.
+func (o *objectGoMapReflect) toKey(n valueInt, throw bool) reflect.Value {
 	key := reflect.New(o.keyType).Elem()
-	err := o.val.runtime.toReflectValue(n, key, &objectExportCtx{})
-	if err != nil {
-		o.val.runtime.typeErrorResult(throw, "map key conversion error: %v", err)
+	idx := int64(n)
+	ok := false
+	switch o.keyType.Kind() {
+	case reflect.String:
+		key.SetString(n.String())
+		ok = true
+	case reflect.Int, reflect.Int8, reflect.Int16, reflect.Int32, reflect.Int64:
+		if ok = !key.OverflowInt(idx); ok {
+			key.SetInt(idx)
+		}
+	case reflect.Uint, reflect.Uint8, reflect.Uint16, reflect.Uint32, reflect.Uint64:
+		if ok = idx >= 0 && !key.OverflowUint(uint64(idx)); ok {
+			key.SetUint(uint64(idx))
+		}
+	case reflect.Float32, reflect.Float64:
+		f := float64(idx)
+		if ok = !key.OverflowFloat(f) && int64(f) == idx && (o.keyType.Kind() == reflect.Float64 || float64(float32(f)) == f); ok {
+			key.SetFloat(f)
+		}
+	}
+	if !ok {
+		o.val.runtime.typeErrorResult(throw, "map key conversion error: %d is not a valid key of type %v", idx, o.keyType)
 		return reflect.Value{}
 	}
 	return key
 }
 
+// strToKey converts a property name into a map key. The name must be the string form of the
+// key (as produced by keyToString, or by the ECMAScript Number::toString for float keys),
+// otherwise there is no such property.
 func (o *objectGoMapReflect) strToKey(name string, throw bool) reflect.Value {
-	if o.keyType.Kind() == reflect.String {
-		return reflect.ValueOf(name).Convert(o.keyType)
+	key := reflect.New(o.keyType).Elem()
+	ok := false
+	switch o.keyType.Kind() {
+	case reflect.String:
+		key.SetString(name)
+		ok = true
+	case reflect.Int, reflect.Int8, reflect.Int16, reflect.Int32, reflect.Int64:
+		if i, err := strconv.ParseInt(name, 10, o.keyType.Bits()); err == nil && strconv.FormatInt(i, 10) == name {
+			key.SetInt(i)
+			ok = true
+		}
+	case reflect.Uint, reflect.Uint8, reflect.Uint16, reflect.Uint32, reflect.Uint64:
+		if u, err := strconv.ParseUint(name, 10, o.keyType.Bits()); err == nil && strconv.FormatUint(u, 10) == name {
+			key.SetUint(u)
+			ok = true
+		}
+	case reflect.Float32, reflect.Float64:
+		if f, err := strconv.ParseFloat(name, o.keyType.Bits()); err == nil || name == "Infinity" || name == "-Infinity" {
+			if err != nil {
+				f = math.Inf(1)
+				if name[0] == '-' {
+					f = math.Inf(-1)
+				}
+			}
+			key.SetFloat(f)
+			ok = o.keyToString(key).String() == name || floatToValue(key.Float()).String() == name
+		}
 	}
-	return o.toKey(newStringValue(name), throw)
+	if !ok {
+		o.val.runtime.typeErrorResult(throw, "map key conversion error: '%s' is not a valid key of type %v", name, o.keyType)
+		return reflect.Value{}
+	}
+	return key
 }
 
 func (o *objectGoMapReflect) _getKey(key reflect.Value) Value {
@@ -51,7 +107,7 @@ func (o *objectGoMapReflect) _getKey(key reflect.Value) Value {
 	return nil
 }
 
-func (o *objectGoMapReflect) _get(n Value) Value {
+func (o *objectGoMapReflect) _get(n valueInt) Value {
 	return o._getKey(o.toKey(n, false))
 }
 
@@ -213,18 +269,19 @@ func (o *objectGoMapReflect) hasOwnPropertyIdx(idx valueInt) bool {
 }
 
 func (o *objectGoMapReflect) deleteStr(name unistring.String, throw bool) bool {
-	key := o.strToKey(name.String(), throw)
+	key := o.strToKey(name.String(), false)
 	if !key.IsValid() {
-		return false
+		// not a possible key: there is no such property
+		return true
 	}
 	o.fieldsValue.SetMapIndex(key, reflect.Value{})
 	return true
 }
 
 func (o *objectGoMapReflect) deleteIdx(idx valueInt, throw bool) bool {
-	key := o.toKey(idx, throw)
+	key := o.toKey(idx, false)
 	if !key.IsValid() {
-		return false
+		return true
 	}
 	o.fieldsValue.SetMapIndex(key, reflect.Value{})
 	return true
